@@ -8,7 +8,7 @@ TECHNIQUE = 'must-reach of the full reassignment after every membership / partit
 EXPLANATION = ('Decides on the MIR of the current tree: add_member, delete_member (on the removed edge) and reassign_partitions reach assign_partitions; partition creation/deletion reaches the '
                'rebalance of every group; a disconnect leaves every recorded membership; assign_partitions clears every member (cursor and share) before distributing, distributes partition i+1 to '
                'member i mod m with exactly one insert per iteration; the rotation cursor stays inside the share; the share state has no other writer; join/leave update the group and the client '
-               'record together and match memberships on stream, topic and group id. Not decided: exclusivity/balance as invariants over all histories; group-level exactly-once delivery.')
+               'record together and match memberships on stream, topic and group id. Also: a dropped connection always leaves its groups (the group-side removal runs before the fallible client-side bookkeeping), and a group is created with the partition count of its topic at run time and when restored at start-up. Not decided: exclusivity/balance as invariants over all histories; group-level exactly-once delivery.')
 ASSUMPTIONS = ['forms below are the pinned representation of the assignment']
 
 CG = 'server::streaming::topics::consumer_group::ConsumerGroup'
